@@ -361,8 +361,38 @@ def o84(ctx):
             ctx.finding(q, "index", "the merged table must be re-indexed with drop=True", fn, m)
 
 
+def _groups_back_in_table_order(ctx):
+    """pieces of a table produced group by group (`for _, g in df.groupby(key)`) come in the order of the group KEYS; concatenated they are in table order
+    only after `.sort_index()` (the pieces keep their row labels) or when they are put back by label -- stored by position (`.values`, `.to_numpy()`) they land
+    on the wrong rows whenever the groups are not stored in ascending blocks"""
+    q = M + "renumber_objects_sequentially"
+    m, fn = ctx.prog.func(q)
+    grouped = set()
+    for a in ast.walk(fn):
+        if isinstance(a, ast.Assign) and len(a.targets) == 1 and isinstance(a.targets[0], ast.Name) and isinstance(a.value, (ast.ListComp, ast.GeneratorExp)) \
+                and any(isinstance(g.iter, ast.Call) and isinstance(g.iter.func, ast.Attribute) and g.iter.func.attr == "groupby" for g in a.value.generators):
+            grouped.add(a.targets[0].id)
+    for st in [n for n in ast.walk(fn) if isinstance(n, ast.Assign)]:
+        for c in ast.walk(st.value):
+            if isinstance(c, ast.Call) and (ctx.prog.resolve(m, c.func) or "") == "pandas.concat" and c.args and isinstance(c.args[0], ast.Name) and c.args[0].id in grouped:
+                ctx.count(1)
+                txt = " ".join(ast.unparse(st.value).split())
+                after = txt[txt.index("concat("):]
+                if ".sort_index()" in after:
+                    continue
+                if ".values" in after or ".to_numpy(" in after or "asarray(" in txt or "np.array(" in txt:
+                    ctx.finding(q, "per-tomogram pieces put back", f"`{norm_text(st)[:90]}`: the pieces come in the order of the tomogram numbers, the table in its own row order; "
+                                "stored by position the new numbers land on other rows whenever the tomograms are not stored in ascending blocks (tomo_id 2,1,2,1: objects "
+                                "are torn apart and different objects share a number) -- sort_index() or an assignment by label puts them back", st, m)
+                elif isinstance(st.targets[0], ast.Subscript):
+                    continue  # assigned with its labels: pandas aligns the rows
+                else:
+                    raise Unsupported("renumber_objects_sequentially: how the per-tomogram pieces are brought back into table order is not recognised", st)
+
+
 def o82(ctx):
     """reset_index always drops the old index on particle tables; renumber_objects keeps the schema under the installed pandas"""
+    _groups_back_in_table_order(ctx)
     n_calls = 0
     for q, m, fn in ctx.prog.functions():
         if not q.startswith("cryomotl.Motl."):
